@@ -25,7 +25,11 @@ Definition tables_ok : bool :=
   fw_irc s_feedMsg && fw_cb s_outFilter && fw_total &&
   swallows_all gen.T07.FEED_ADDMSG_CATCHES && swallows_all gen.T07.FEED_INFILTER_CATCHES &&
   swallows_all gen.T07.FEED_CALLBACK_CATCHES &&
-  forallb (fun s => Nat.eqb (length s) 3) gen.T07.NICK_SETTERS.
+  forallb (fun s => Nat.eqb (length s) 3) gen.T07.NICK_SETTERS &&
+  (* utils.str.decode_raw_line decodes with 'strict' or 'replace' only: it cannot produce lone surrogates,
+     which is what the send side (outbuffer.encode()) relies on; see [echo_ok] in the domain *)
+  forallb (fun h => seq_eqb h [115; 116; 114; 105; 99; 116] || seq_eqb h [114; 101; 112; 108; 97; 99; 101])
+          gen.T07.DECODE_HANDLERS.
 
 Lemma tables_ok_current : tables_ok = true.
 Proof. vm_compute. reflexivity. Qed.
@@ -174,21 +178,134 @@ Proof.
   destruct (run_outfilters a (rev cbs) _) as [p1 x]. cbn [snd] in Hr. subst x. apply IH.
 Qed.
 
-Lemma send_if_msgs_none p : out_ok -> snd (send_if_msgs p) = None.
+(* ---- the send side: outbuffer.encode() ---- *)
+Definition qb (d : dstate) : list str * list str := (outq d, outbuf d).
+Definition enc_qb (q : list str * list str) : bool := forallb encodable (fst q) && is_nil (snd q).
+(* everything queued for sending is encodable and the outbuffer is not poisoned *)
+Definition enc_ok (d : dstate) : bool := enc_qb (qb d).
+
+Lemma qb_reconn b d : qb (apply_reconn b d) = qb d.
+Proof. destruct b; reflexivity. Qed.
+
+Lemma run_infilters_qb n m l : forall p, qb (fst (fst (fst (run_infilters n m l p)))) = qb (fst p).
 Proof.
-  intro Ho. unfold Model.send_if_msgs. destruct (connected (fst p)); [|reflexivity].
-  pose proof (take_all_none (S (length (outq (fst p)))) Ho [] p) as H.
-  destruct (take_all _ [] p) as [[p' acc] x]. cbn [snd] in H. subst x. reflexivity.
+  induction l as [|c l IH]; intro p; cbn [Model.run_infilters]; [reflexivity|].
+  destruct (cb_in c n m (snd p)) as [r keep]. destruct (h_exc r) as [e|].
+  - destruct (through_try _ _); [cbn [fst]; apply qb_reconn|]. rewrite IH. cbn [fst]. apply qb_reconn.
+  - destruct keep; [rewrite IH|]; cbn [fst]; apply qb_reconn.
 Qed.
 
-Lemma read_tail_none p x r : out_ok ->
-  (forall e, x = Some e -> caught gen.T07.READ_CATCHES e = true) -> snd (read_tail p x r) = None.
+Lemma run_calls_qb n m l : forall p, qb (fst (fst (run_calls n m l p))) = qb (fst p).
 Proof.
-  intros Ho Hx. unfold Model.read_tail. destruct r; [reflexivity|].
-  destruct x as [e|]; [|apply send_if_msgs_none; exact Ho].
+  induction l as [|c l IH]; intro p; cbn [Model.run_calls]; [reflexivity|].
+  destruct (through_try _ _); [cbn [fst]; apply qb_reconn|]. rewrite IH. cbn [fst]. apply qb_reconn.
+Qed.
+
+Lemma run_outfilters_qb a l : forall p, qb (fst (fst (run_outfilters a l p))) = qb (fst p).
+Proof.
+  induction l as [|c l IH]; intro p; cbn [Model.run_outfilters]; [reflexivity|].
+  destruct (through_fw _ _); [cbn [fst]; apply qb_reconn|]. rewrite IH. cbn [fst]. apply qb_reconn.
+Qed.
+
+(* after the handler stage, the rest of feedMsg leaves queue and outbuffer alone *)
+Lemma feed_rest_qb n m d s :
+  qb (fst (fst (let r := addmsg n m s in
+            let p2 := (apply_reconn (h_reconn r) d, h_st r) in
+            match through_try gen.T07.FEED_ADDMSG_CATCHES (through_fw (fw_state s_addMsg) (h_exc r)) with
+            | Some e => (p2, Some e)
+            | None =>
+                match run_infilters n m cbs p2 with
+                | (p3, Some e, _) => (p3, Some e)
+                | (p3, None, false) => (p3, None)
+                | (p3, None, true) => run_calls n m cbs p3
+                end
+            end))) = qb d.
+Proof.
+  cbn zeta. destruct (through_try _ _); [cbn [fst]; apply qb_reconn|].
+  pose proof (run_infilters_qb n m cbs (apply_reconn (h_reconn (addmsg n m s)) d, h_st (addmsg n m s))) as H1.
+  destruct (run_infilters n m cbs _) as [[p3 x] go]. cbn [fst] in H1. rewrite qb_reconn in H1.
+  destruct x; [exact H1|]. destruct go; [|exact H1]. rewrite run_calls_qb. exact H1.
+Qed.
+
+Lemma feed_body_enc n m p : echo_ok m = true -> enc_ok (fst p) = true -> enc_ok (fst (fst (feed_body n m p))) = true.
+Proof.
+  intros He Hp. unfold Model.feed_body. destruct p as [d s]. cbn [fst] in Hp.
+  destruct (existsb _ _ && _); [exact Hp|].
+  unfold echo_ok in He. destruct (is_ping (m_command m)).
+  - destruct (m_args m) as [|a rest]; [exact Hp|].
+    destruct (valid_arg a); [|exact Hp]. cbn [negb orb] in He.
+    cbn [snd fst]. unfold enc_ok.
+    etransitivity; [exact (f_equal enc_qb (feed_rest_qb n m (set_outq (outq d ++ [a]) d) s))|].
+    unfold enc_ok, enc_qb, qb in *. cbn [fst snd set_outq outq outbuf] in *.
+    apply andb_true_iff in Hp as [H1 H2]. rewrite forallb_app, H1, H2. cbn. rewrite He. reflexivity.
+  - destruct (h_exc (dispatch n m s)); [cbn [fst]; unfold enc_ok; rewrite qb_reconn; exact Hp|].
+    cbn [snd fst]. unfold enc_ok.
+    etransitivity; [exact (f_equal enc_qb (feed_rest_qb n m (apply_reconn (h_reconn (dispatch n m s)) d) (h_st (dispatch n m s))))|].
+    rewrite qb_reconn. exact Hp.
+Qed.
+
+Lemma feed_msg_enc line m p : echo_ok m = true -> enc_ok (fst p) = true -> enc_ok (fst (fst (feed_msg line m p))) = true.
+Proof.
+  intros He Hp. unfold Model.feed_msg.
+  pose proof (feed_body_enc (nfed (fst p)) m (note_fed line (fst p), snd p) He Hp) as H.
+  destruct (feed_body _ m _) as [p' x]. exact H.
+Qed.
+
+Lemma feed_lines_enc ls : forall p, forallb line_ok ls = true -> enc_ok (fst p) = true ->
+  enc_ok (fst (fst (feed_lines ls p))) = true.
+Proof.
+  induction ls as [|l ls IH]; intros p Hall Hp; [exact Hp|].
+  cbn [forallb] in Hall. apply andb_true_iff in Hall as [Hl Hall].
+  cbn [Model.feed_lines]. unfold Model.line_ok in Hl.
+  destruct (parse_msg vt (decode l)) as [[m|]|e]; [| apply IH; assumption | discriminate].
+  pose proof (feed_msg_enc (strip gen.T07.PY_WS (decode l)) m p Hl Hp) as Hf.
+  destruct (feed_msg _ m p) as [p' x]. cbn [fst] in Hf.
+  destruct (through_try _ x); [exact Hf|]. apply IH; assumption.
+Qed.
+
+Lemma take_all_enc fuel : forall acc p,
+  forallb encodable (outq (fst p)) = true -> forallb encodable acc = true ->
+  forallb encodable (outq (fst (fst (fst (take_all fuel acc p))))) = true /\
+  forallb encodable (snd (fst (take_all fuel acc p))) = true /\
+  outbuf (fst (fst (fst (take_all fuel acc p)))) = outbuf (fst p).
+Proof.
+  induction fuel as [|f IH]; intros acc p Hq Ha; cbn [Model.take_all]; [auto|].
+  destruct (outq (fst p)) as [|a q] eqn:Eq; [cbn [fst snd]; rewrite Eq; auto|].
+  cbn [forallb] in Hq. apply andb_true_iff in Hq as [Hqa Hqq].
+  pose proof (run_outfilters_qb a (rev cbs) (set_outq q (fst p), snd p)) as Hb.
+  destruct (run_outfilters a (rev cbs) _) as [p1 x]. cbn [fst] in Hb. unfold qb in Hb. cbn in Hb. injection Hb as Ho Hu.
+  destruct x as [e|].
+  - destruct (through_fw _ _); cbn [fst snd]; rewrite Ho, Hu; auto.
+  - destruct (IH (acc ++ [a]) p1) as (H1 & H2 & H3).
+    + rewrite Ho. exact Hqq.
+    + rewrite forallb_app, Ha. cbn. rewrite Hqa. reflexivity.
+    + rewrite H3, Hu. auto.
+Qed.
+
+Lemma send_if_msgs_none p : out_ok -> enc_ok (fst p) = true ->
+  snd (send_if_msgs p) = None /\ enc_ok (fst (fst (send_if_msgs p))) = true.
+Proof.
+  intros Ho He. unfold Model.send_if_msgs. destruct (connected (fst p)); [|auto].
+  unfold enc_ok, enc_qb, qb in He. cbn [fst snd] in He. apply andb_true_iff in He as [Hq Hb].
+  pose proof (take_all_none (S (length (outq (fst p)))) Ho [] p) as H.
+  destruct (take_all_enc (S (length (outq (fst p)))) [] p Hq eq_refl) as (H1 & H2 & H3).
+  destruct (take_all _ [] p) as [[p' acc] x]. cbn [fst snd] in *. subst x.
+  destruct (outbuf (fst p)) eqn:Eb; [|discriminate]. rewrite H3. cbn [app]. rewrite H2.
+  split; [reflexivity|]. unfold enc_ok, enc_qb, qb. cbn. rewrite H1. reflexivity.
+Qed.
+
+Lemma enc_disconnect p : enc_ok (fst (disconnect St p)) = enc_ok (fst p).
+Proof. reflexivity. Qed.
+
+Lemma read_tail_none p x r : out_ok -> enc_ok (fst p) = true ->
+  (forall e, x = Some e -> caught gen.T07.READ_CATCHES e = true) ->
+  snd (read_tail p x r) = None /\ enc_ok (fst (fst (read_tail p x r))) = true.
+Proof.
+  intros Ho He Hx. unfold Model.read_tail. destruct r; [auto|].
+  destruct x as [e|]; [|apply send_if_msgs_none; assumption].
   destruct (first_match_caught _ _ (Hx e eq_refl)) as [c Hc]. rewrite Hc.
-  destruct c; try reflexivity; try (apply send_if_msgs_none; exact Ho).
-  destruct e; try reflexivity; apply send_if_msgs_none; exact Ho.
+  destruct c; try (split; [reflexivity|exact He]); try (apply send_if_msgs_none; assumption).
+  destruct e; try (split; [reflexivity|exact He]); apply send_if_msgs_none; assumption.
 Qed.
 
 (* one recv outcome is harmless for buffer [buf] *)
@@ -206,40 +323,44 @@ Proof.
   destruct rv as [b| |x]; cbn [Model.dom step_ok step_buf]; try reflexivity.
 Qed.
 
-Lemma read_none rv buf p : dispatch_ok -> out_ok -> step_ok rv buf = true ->
-  snd (snd (read rv buf p)) = None /\ fst (read rv buf p) = step_buf rv buf.
+Lemma read_none rv buf p : dispatch_ok -> out_ok -> step_ok rv buf = true -> enc_ok (fst p) = true ->
+  snd (snd (read rv buf p)) = None /\ fst (read rv buf p) = step_buf rv buf /\
+  enc_ok (fst (fst (snd (read rv buf p)))) = true.
 Proof.
-  intros Hd Ho Hs. unfold Model.read, Model.read_body. destruct rv as [b| |x]; cbn [step_ok step_buf] in *.
+  intros Hd Ho Hs He. unfold Model.read, Model.read_body. destruct rv as [b| |x]; cbn [step_ok step_buf] in *.
   - destruct (split_lines (buf ++ b)) as [ls rest]. cbn [fst snd] in *.
-    pose proof (feed_lines_none ls Hd p Hs) as Hf. destruct (feed_lines ls p) as [p' x]. cbn [snd] in Hf. subst x.
-    cbn [fst snd]. split; [|reflexivity]. apply read_tail_none; [exact Ho|discriminate].
+    pose proof (feed_lines_none ls Hd p Hs) as Hf. pose proof (feed_lines_enc ls p Hs He) as He'.
+    destruct (feed_lines ls p) as [p' x]. cbn [fst snd] in *. subst x.
+    destruct (read_tail_none p' None false Ho He') as [H1 H2]; [discriminate|]. auto.
   - cbn. auto.
-  - cbn [fst snd]. split; [|reflexivity]. apply read_tail_none; [exact Ho|]. intros e He. inversion He; subst. exact Hs.
+  - cbn [fst snd]. destruct (read_tail_none p (Some x) false Ho He) as [H1 H2]; [|auto].
+    intros e Hx. inversion Hx; subst. exact Hs.
 Qed.
 
-Lemma driver_run_none rv buf p : dispatch_ok -> out_ok -> step_ok rv buf = true ->
+Lemma driver_run_none rv buf p : dispatch_ok -> out_ok -> step_ok rv buf = true -> enc_ok (fst p) = true ->
   snd (snd (driver_run rv buf p)) = None /\
-  (connected (fst p) = true -> fst (driver_run rv buf p) = step_buf rv buf).
+  (connected (fst p) = true -> fst (driver_run rv buf p) = step_buf rv buf) /\
+  enc_ok (fst (fst (snd (driver_run rv buf p)))) = true.
 Proof.
-  intros Hd Ho Hs. unfold Model.driver_run. destruct (connected (fst p)); [|split; [reflexivity|discriminate]].
-  pose proof (send_if_msgs_none p Ho) as H1. destruct (send_if_msgs p) as [p1 x1]. cbn [snd] in H1. subst x1.
-  destruct (read_none rv buf p1 Hd Ho Hs) as [H2 H3].
+  intros Hd Ho Hs He. unfold Model.driver_run. destruct (connected (fst p)); [|repeat split; [discriminate|exact He]].
+  destruct (send_if_msgs_none p Ho He) as [H1 He1]. destruct (send_if_msgs p) as [p1 x1]. cbn [fst snd] in *. subst x1.
+  destruct (read_none rv buf p1 Hd Ho Hs He1) as (H2 & H3 & He2).
   destruct (read rv buf p1) as [buf' [p2 x2]]. cbn [fst snd] in *. subst x2 buf'.
-  cbn [fst snd]. split; [apply send_if_msgs_none; exact Ho|reflexivity].
+  cbn [fst snd]. destruct (send_if_msgs_none p2 Ho He2) as [H4 He4]. auto.
 Qed.
 
 (* the invariant of the run of drivers.run() calls *)
 Definition inv (ms : mstate St) (buf : bytes) : Prop :=
   alive ms = true /\ crashed ms = false /\ Forall (fun x => x = None) (escapes ms) /\
-  (connected (fst (m_p ms)) = true -> m_buf ms = buf).
+  (connected (fst (m_p ms)) = true -> m_buf ms = buf) /\ enc_ok (fst (m_p ms)) = true.
 
 Lemma drivers_run_inv ms rv buf : dispatch_ok -> out_ok ->
   inv ms buf -> step_ok rv buf = true -> inv (drivers_run ms rv) (step_buf rv buf).
 Proof.
-  intros Hd Ho (Ha & Hc & He & Hb) Hs. unfold Model.drivers_run. rewrite Ha, Hc. cbn [andb negb].
+  intros Hd Ho (Ha & Hc & He & Hb & Hen) Hs. unfold Model.drivers_run. rewrite Ha, Hc. cbn [andb negb].
   destruct (connected (fst (m_p ms))) eqn:Ec.
   - rewrite (Hb eq_refl) in *.
-    destruct (driver_run_none rv buf (m_p ms) Hd Ho Hs) as [H1 H2]. specialize (H2 Ec).
+    destruct (driver_run_none rv buf (m_p ms) Hd Ho Hs Hen) as (H1 & H2 & H3). specialize (H2 Ec).
     destruct (driver_run rv buf (m_p ms)) as [b' [p' x]]. cbn [fst snd] in *. subst x b'.
     repeat split; cbn; auto.
   - (* not connected: SocketDriver.run sleeps and returns; nothing is read any more *)
